@@ -25,10 +25,24 @@ impl Checker for C12 {
             ops.last(),
             Some(Op::CreateFile { .. } | Op::CreateDir { .. } | Op::Remove { .. } | Op::Rename { .. } | Op::Write { .. } | Op::WriteAll { .. } | Op::Truncate { .. })
         );
-        let max_explored = if std::env::var("VERIF_TIER").map_or(false, |t| t == "thorough") { 2 } else { 1 };
+        let handle_op = matches!(ops.last(), Some(Op::Write { .. } | Op::WriteAll { .. } | Op::Truncate { .. }));
+        // (calls through an open handle need the handle first: up to three explored calls on the populated volumes)
+        let max_explored = if handle_op && cfg.name.contains("-pop") {
+            3
+        } else if std::env::var("VERIF_TIER").map_or(false, |t| t == "thorough") {
+            2
+        } else {
+            1
+        };
         // (volumes that are dirty at mount already carry the bit)
         if v.is_empty() && mutating && (1..=max_explored).contains(&explored) && ex.panic.is_none() && ex.status_byte_at_mount & 1 == 0 && ex.calls_last <= 1500 {
             let follow = Op::CreateFile { base: harness::sess::DirRef::Root, path: "after-fault.txt".into(), keep: None };
+            // follow-ups: another call (a new file), and - through a handle - the caller simply retrying the failed call
+            let mut follows = vec![follow];
+            if handle_op {
+                follows.push(ops[n - 1].clone());
+            }
+            for follow in follows {
             let mut ops2 = ops.to_vec();
             ops2.push(follow);
             for k in 1..=ex.calls_last {
@@ -46,6 +60,7 @@ impl Checker for C12 {
                         }
                     }
                 }
+            }
             }
         }
         v
@@ -100,10 +115,16 @@ pub fn populate_prefix(cs: u32) -> Vec<Op> {
 pub fn specs(tier: &str) -> Vec<ExpSpec> {
     let th = is_thorough(tier);
     let mut v = Vec::new();
-    for ft in [FatType::Fat12, FatType::Fat32] {
+    for ft in [FatType::Fat12, FatType::Fat16, FatType::Fat32] {
         let mut c = vol::tiny_with(ft, 8, 16);
         c.name = format!("{}-pop", c.name);
-        v.push(ExpSpec::new(c, alphabet(512), if th { 5 } else { 3 }).with_prefix(populate_prefix(512)));
+        v.push(ExpSpec::new(c.clone(), alphabet(512), if th { 5 } else { 3 }).with_prefix(populate_prefix(512)));
+        // the same with the I/O-error bit set when the volume is first mounted (it must survive every session)
+        if ft != FatType::Fat32 || th {
+            let mut c2 = with_status(&c, 2);
+            c2.name = c2.name.replace("-pop-st2", "-st2-pop");
+            v.push(ExpSpec::new(c2, alphabet(512), 3).with_prefix(populate_prefix(512)));
+        }
     }
     // builder-made FAT32 whose free clusters are the lowest ones: allocations issue few device calls, so the
     // storage-fault extension (which is skipped for operations with more than 1500 device calls) applies to FAT32 too
